@@ -9,7 +9,7 @@ For every program P it emits
 Determinism: one random.Random per program seeded from (master seed, slice, index); no set
 or dict-order dependence (dicts are insertion ordered, sets are never iterated).
 """
-import random
+import random, sys
 from dataclasses import dataclass, field
 from typing import List, Optional, Tuple
 
@@ -71,6 +71,7 @@ def size_of(t):
 class Cap:
     ev: int
     snap: Optional[str] = None      # name of the branch variable snapshotted
+    snap_mut: bool = False          # ... through `&mut name` (needs the `mut` of `let mut name`)
     silent: bool = False            # block without a marker statement: `{ expr }` (the operand's own evaluation is the event)
     pre: str = ''                   # extra statements (nested invocation in a capture)
     pre_ref: str = ''
@@ -86,7 +87,7 @@ class Operand:
         if self.cap is None:
             return self.expr
         c = self.cap
-        mark = 'w::snap(%d, &%s);' % (c.ev, c.snap) if c.snap else 'w::cap(%d);' % c.ev
+        mark = ('w::snap_m(%d, &mut %s);' if c.snap_mut else 'w::snap(%d, &%s);') % (c.ev, c.snap) if c.snap else 'w::cap(%d);' % c.ev
         if c.silent:
             return '{ %s }' % self.expr
         return '{ %s%s %s }' % (c.pre, mark, self.expr)
@@ -104,7 +105,7 @@ class Operand:
 
     def ref_block(self):
         c = self.cap
-        mark = 'w::snap(%d, &%s);' % (c.ev, c.snap) if c.snap else 'w::cap(%d);' % c.ev
+        mark = ('w::snap_m(%d, &mut %s);' if c.snap_mut else 'w::snap(%d, &%s);') % (c.ev, c.snap) if c.snap else 'w::cap(%d);' % c.ev
         pre_ref = c.pre_ref if isinstance(c.pre_ref, str) else 'let _n = %s; ' % ref_expr(c.pre_ref)
         if c.silent:
             return '{ %s }' % self.ref_text()
@@ -193,6 +194,7 @@ class Ctx:
         self.in_capture = False
         self.caps: List[Tuple[Cap, int, int, int]] = []   # (cap, inv, branch, step)
         self.nest_budget = profile.get('nest_depth', 0)
+        self.kwvars = []         # (name, expr): callbacks bound to local variables named like handler keywords, before the macro
         self.multi_call = 0      # > 0 while generating the inner chain of a closure that is called per element
         self.no_caps = 0         # > 0 where a block capture would be borrowed by a non-move closure that must be 'static
         self.async_depth = 0     # > 0 while generating anything evaluated inside an async macro
@@ -234,7 +236,15 @@ def shape(ctx, expr, args=None, ret=None, hoistable=True, byref=False, turbofish
         shapes.append((10 * ctx.p.get('turbofish', 0.1), 'turbofish'))
     if ctx.p.get('opnoise', 0.0) > 0:
         shapes.append((10 * ctx.p.get('opnoise', 0.0), 'opnoise'))
+    if (ctx.p.get('kwvars', 0.02) > 0 and ctx.cur_inv == 0 and ctx.multi_call == 0 and not ctx.in_capture and len(ctx.kwvars) < 3
+            and ctx.cur_step != STEP_HANDLER):
+        shapes.append((10 * ctx.p.get('kwvars', 0.02), 'kwvar'))
     s = ctx.pick_w(shapes)
+    if s == 'kwvar':
+        # the operand is a plain identifier spelled like a handler keyword (`|> map => ..` must still be map + and_then)
+        name = [n for n in ('map', 'then', 'and_then') if n not in [k[0] for k in ctx.kwvars]][0]
+        ctx.kwvars.append((name, expr))
+        return Operand(name)
     if s == 'opnoise':
         # a complete operand whose prefix is complete too, followed by an operator look-alike
         op = ctx.p.get('opnoise_op') or ctx.rng.choice(SH_OPS)
@@ -979,6 +989,7 @@ def gen_branch(ctx, inv, index, depth, acts_per_step, same_type=None):
         cur = X
         for k in range(depth):
             ctx.cur_step = k
+            ctx.no_caps = 1 if k in p.get('no_cap_steps', ()) else 0
             n = acts_per_step() if (k > 0 or not pre) else max(0, acts_per_step() - 1)
             if k > 0:
                 n = max(1, n)
@@ -992,6 +1003,7 @@ def gen_branch(ctx, inv, index, depth, acts_per_step, same_type=None):
                 acts[0].deferred = True
             steps.append(acts)
             types.append(cur)
+        ctx.no_caps = 0
         return Branch(name, mutable, init, steps, types, index)
     init = None
     if same_type is None and ctx.nest_budget > 0 and ctx.chance(ctx.p.get('nest', 0.0)):
@@ -1007,6 +1019,7 @@ def gen_branch(ctx, inv, index, depth, acts_per_step, same_type=None):
     cur = t0
     for k in range(depth):
         ctx.cur_step = k
+        ctx.no_caps = 1 if k in p.get('no_cap_steps', ()) else 0
         n = acts_per_step()
         if k > 0:
             n = max(1, n)
@@ -1049,6 +1062,7 @@ def gen_branch(ctx, inv, index, depth, acts_per_step, same_type=None):
             acts[0].deferred = True
         steps.append(acts)
         types.append(cur)
+    ctx.no_caps = 0
     return Branch(name, mutable, init, steps, types, index)
 
 
@@ -1318,6 +1332,7 @@ def _gen_invocation_body(ctx, inv, nb, depths, acts_per_step, same):
         for attempt in range(40):
             mark_ev, mark_evs, mark_caps, mark_inv = ctx.next_ev, len(ctx.evs), len(ctx.caps), len(ctx.invs)
             mark_next_inv = ctx.next_inv
+            mark_kw = len(ctx.kwvars)
             try:
                 b = gen_branch(ctx, inv, i, depths[i], acts_per_step, same)
                 inv.branches.append(b)
@@ -1328,6 +1343,7 @@ def _gen_invocation_body(ctx, inv, nb, depths, acts_per_step, same):
                 del ctx.caps[mark_caps:]
                 del ctx.invs[mark_inv:]
                 ctx.next_inv = mark_next_inv
+                del ctx.kwvars[mark_kw:]
                 ctx.multi_call = 0
                 ctx.no_caps = 0
                 ctx.is_async = inv.is_async
@@ -1357,6 +1373,7 @@ def assign_snapshots(ctx, inv):
         if cands:
             b = ctx.rng.choice(cands)
             cap.snap = b.name
+            cap.snap_mut = b.mutable and ctx.chance(ctx.p.get('snap_mut', 0.6))
             for e in ctx.evs:
                 if e.ev == cap.ev:
                     e.snap = True
@@ -1585,26 +1602,27 @@ class Program:
             out.append(self.extra_items)
         A = self.top.is_async
         rc = render_code(self.top)
+        pre = ''.join('let %s = %s; ' % kv for kv in self.ctx.kwvars)
         runs = []
         for (kname, kvar) in self.kind_list():
             if kname in stub_kinds:
                 continue
             out.append('// @run %d %s' % (P, kname))
             if A:
-                out.append('pub fn run_%d_%s() -> ::std::pin::Pin<Box<dyn ::std::future::Future<Output = String>>> {\n    let __fut = %s;\n    Box::pin(async move { let __res = __fut.await; %s })\n}' % (P, kname, macro_expr(self.top, kname), rc))
+                out.append('pub fn run_%d_%s() -> ::std::pin::Pin<Box<dyn ::std::future::Future<Output = String>>> {\n    %slet __fut = %s;\n    Box::pin(async move { let __res = __fut.await; %s })\n}' % (P, kname, pre, macro_expr(self.top, kname), rc))
                 runs.append('(Kind::%s, RunFn::Async(run_%d_%s))' % (kvar, P, kname))
             else:
-                out.append('pub fn run_%d_%s() -> String {\n    let __res = %s;\n    %s\n}' % (P, kname, macro_expr(self.top, kname), rc))
+                out.append('pub fn run_%d_%s() -> String {\n    %slet __res = %s;\n    %s\n}' % (P, kname, pre, macro_expr(self.top, kname), rc))
                 runs.append('(Kind::%s, RunFn::Sync(run_%d_%s))' % (kvar, P, kname))
         _wcount[0] = 0
         _FUT[0] = self.fut
         out.append('// @ref %d' % P)
         rexpr = ref_expr(self.top, top=True)
         if A:
-            out.append('pub fn ref_%d() -> ::std::pin::Pin<Box<dyn ::std::future::Future<Output = String>>> {\n    Box::pin(async move { let __res = (%s).await; %s })\n}' % (P, rexpr, rc))
+            out.append('pub fn ref_%d() -> ::std::pin::Pin<Box<dyn ::std::future::Future<Output = String>>> {\n    %sBox::pin(async move { let __res = (%s).await; %s })\n}' % (P, pre, rexpr, rc))
             reff = 'RunFn::Async(ref_%d)' % P
         else:
-            out.append('pub fn ref_%d() -> String {\n    let __res = %s;\n    %s\n}' % (P, rexpr, rc))
+            out.append('pub fn ref_%d() -> String {\n    %slet __res = %s;\n    %s\n}' % (P, pre, rexpr, rc))
             reff = 'RunFn::Sync(ref_%d)' % P
         invs = []
         for inv in self.ctx.invs:
@@ -1881,10 +1899,14 @@ def slice_programs(slice_name, tier, master_seed, base_id):
         nonlocal i
         pid = base_id + i
         pr = None
+        met = False
         for attempt in range(400 if require else 1):
             pr = gen_program(pid, slice_name, profile, family, subseed(master_seed, slice_name, tag, i, attempt), **kw)
             if require is None or (require(pr.text()) if callable(require) else require in pr.text()):
+                met = True
                 break
+        if not met:
+            sys.stderr.write('SKELETON-UNMET slice=%s tag=%s family=%s\n' % (slice_name, tag, family))
         progs.append(pr)
         i += 1
 
@@ -1951,6 +1973,19 @@ def slice_programs(slice_name, tier, master_seed, base_id):
                             j = text.find('>>>', j + 1)
                         return False
                     add(p, fam, 'sk-noise-%s-%s' % (op, inside), require=req)
+    if slice_name == 'ops':
+        # an operand that is a plain identifier spelled like a handler keyword, directly followed by `=>` / `=>[]`
+        import re as _re4
+        for fam in fams:
+            for kw in ('map', 'then', 'and_then'):
+                p = dict(prof)
+                p['ops'] = {o: (6.0 if o in ('map', 'and_then', 'collect', 'then') else 0.5) for o in OP_NAMES}
+                p['kwvars'] = 0.6
+                p['captures'] = 0.0
+                p['closures'] = 0.0
+                p['turbofish'] = 0.0
+                p['wrappers'] = 0.0
+                add(p, fam, 'sk-kwvar-%s' % kw, require=(lambda text, kw=kw: _re4.search(r'[>|@] %s ~?=>' % kw, text) is not None))
     if slice_name == 'wrap':
         for fam in fams:
             for op in WRAP_NAMES:
@@ -1974,7 +2009,7 @@ def slice_programs(slice_name, tier, master_seed, base_id):
                         rest = text[j + len(tok):]
                         end = rest.find('<<<')
                         seg = rest if end < 0 else rest[:end]
-                        if '{ w::cap(' in seg or '{ w::snap(' in seg:
+                        if '{ w::cap(' in seg or '{ w::snap' in seg:
                             return True
                         j = text.find(tok, j + 1)
                     return False
@@ -2000,8 +2035,39 @@ def slice_programs(slice_name, tier, master_seed, base_id):
 
                 def req1(text):
                     j = text.find('~')
-                    return j >= 0 and ('{ w::cap(' in text[j:] or '{ w::snap(' in text[j:])
+                    return j >= 0 and ('{ w::cap(' in text[j:] or '{ w::snap' in text[j:])
                 add(p, fam, 'sk-single-%s' % (dp,), require=req1)
+    if slice_name == 'steps':
+        # a deferred step that STARTS with a `&mut self` member access on the previous step's value (an iterator carried
+        # across the step boundary: non-try macros only)
+        import re as _re2
+        for fam in [f for f in fams if not f[1] and f[0] == 'sync']:
+            p = dict(prof)
+            p['ops'] = {o: (6.0 if o == 'dot' else 0.6) for o in OP_NAMES}
+            p['depth_profile'] = (lambda rng, nb: [rng.randint(2, 3) for _ in range(nb)])
+            p['branches'] = (1, 2)
+            p['wrappers'] = 0.0
+            p['nest'] = 0.0
+            add(p, fam, 'sk-mutself-step', require=(lambda text: _re2.search(r'~\s*(>\.|\.\.)\s*nth\(1\)', text) is not None))
+    if slice_name == 'steps':
+        # a `let mut` branch that finishes early is MUTATED (snapshot through `&mut name`) by a capture two or more steps
+        # later, with a capture-free step in between
+        import re as _re3
+        for fam in fams:
+            for dp in [(1, 4), (1, 3, 4), (2, 4, 1)]:
+                p = dict(prof)
+                p['depth_profile'] = (lambda d: (lambda rng, nb: list(d)))(dp)
+                p['names'] = 1.0
+                p['mut'] = 1.0
+                p['snap_mut'] = 1.0
+                p['snapshots'] = 1.0
+                p['captures'] = 0.7
+                p['nest'] = 0.0
+                p['wrappers'] = 0.05
+                short = min(dp)
+                p['no_cap_steps'] = (short,)
+                bi = list(dp).index(short)
+                add(p, fam, 'sk-mutname-%s' % (dp,), require=(lambda text, bi=bi: _re3.search(r'snap_m\(\d+, &mut n\d+_%d\)' % bi, text) is not None))
     if slice_name == 'steps':
         # named branches (`let` / `let mut`) on equal-depth and on ragged profiles, with and without a handler
         for fam in fams:
